@@ -196,7 +196,7 @@ Proof. vm_compute. repeat split; auto. Qed.
 From Verif Require Import Base.GoSemColl Gen.GenPeerSel Model.ReqSel Proofs.GenPeerSelP Proofs.ReqSelP.
 
 (* the generated getHost never panics and is the specification's host function, for every string:
-   the bytes before the FIRST ':' (so "[::1]:80" has host "["), the whole string if there is none *)
+   the bytes before the LAST ':' (so "[::1]:80" has host "[::1]"), the whole string if there is none *)
 Theorem C15_gethost_generated : forall hp, getHost hp = Some (host_of hp).
 Proof. exact getHost_host_of. Qed.
 Print Assumptions C15_gethost_generated.
@@ -293,12 +293,32 @@ Example C15_example_retry :
   end.
 Proof. vm_compute. repeat split; auto; discriminate. Qed.
 
-(* the host function as the code has it: no colon => the whole string; an IPv6 literal in
-   brackets => "[" (every IPv6 peer shares that "host") *)
+(* the host function: no colon => the whole string; empty host; a bracketed IPv6 literal is the
+   host of its host:port; several colons => cut at the last one *)
 Example C15_example_gethost :
   getHost [110; 48] = Some [110; 48] /\ getHost [58; 49] = Some [] /\
-  getHost [91; 58; 58; 49; 93; 58; 56; 48] = Some [91].
+  getHost [91; 58; 58; 49; 93; 58; 56; 48] = Some [91; 58; 58; 49; 93] /\
+  getHost [97; 58; 49; 58; 50] = Some [97; 58; 49].
 Proof. vm_compute. repeat split. Qed.
+
+(* IPv6 peers [::1]:1 [::1]:2 [::2]:1 with scores 0 0 9: the second attempt of a request leaves the
+   host [::1] (score 0 sibling available) for [::2]:1; the third falls back to the untried sibling *)
+Example C15_example_retry_ipv6 :
+  let x1 := [91; 58; 58; 49; 93; 58; 49] in let x2 := [91; 58; 58; 49; 93; 58; 50] in
+  let y1 := [91; 58; 58; 50; 93; 58; 49] in
+  match lrun pl_empty [LAdd x1 0 0 0; LAdd x2 0 0 0; LAdd y1 9 0 0] with
+  | Some l =>
+      match req_run l fresh_request [mkAtt [] 0; mkAtt [] 0; mkAtt [] 0] with
+      | Some (log, _) =>
+          match map snd log with
+          | [p1; p2; p3] => (p1 = x1 \/ p1 = x2) /\ p2 = y1 /\ (p3 = x1 \/ p3 = x2) /\ p3 <> p1
+          | _ => False
+          end
+      | None => False
+      end
+  | None => False
+  end.
+Proof. vm_compute. repeat split; auto; discriminate. Qed.
 
 (* a peer that dialled us (one inbound connection) carrying 2 of our calls and 3 of its own, and
    one idle outbound connection: 2 pending, default score 2 (top tier) *)
